@@ -4,6 +4,7 @@
 //!
 //! Scenario: {"b": internal buffer size, "speed0": units per frame, "src": .., "steps": [
 //!   {"act":"Cmd","c":"start|pause|speed|speed_in|speed_at","v":V,"w":W} | {"act":"StopA"} | {"act":"StopB"}
+//!   | {"act":"StopBegin"} | {"act":"StopW1"} | {"act":"StopW2"} | {"act":"ABeginR","n":N} | {"act":"ARdSpeed"} | {"act":"ARdA"} | {"act":"ARdB"}
 //!   | {"act":"Sched","id":I,"w":W} | {"act":"RdA"} | {"act":"RdB"}
 //!   | {"act":"ABegin","n":N} | {"act":"APubTicks"} | {"act":"ARun"}]}
 //! Clock time unit = 1/4 tick; a speed of v units per frame = 2v ticks per second at 8 Hz.
@@ -97,6 +98,55 @@ fn run_scenario(sc: &Value, t: &mut Tracer) {
 				});
 				t.ev(json!({"a": "cmd", "c": "stop", "v": 0, "w": 0}));
 				matches!(st, Status::Done(_))
+			}
+			// ---- ClockHandle::stop as the two command writes it is (yield point cmd.w before each)
+			"StopBegin" => {
+				gw.start(&["cmd.w"], |wd| {
+					wd.clock.stop();
+					Value::Null
+				});
+				let st = gw.wait();
+				t.ev(json!({"a": "cmd", "c": "stop_begin", "v": 0, "w": 0}));
+				matches!(st, Status::Parked(_))
+			}
+			"StopW1" => {
+				let st = gw.resume();
+				t.ev(json!({"a": "tau"}));
+				matches!(st, Status::Parked(_))
+			}
+			"StopW2" => {
+				let st = gw.finish();
+				t.ev(json!({"a": "cmd", "c": "stop_end", "v": 0, "w": 0}));
+				matches!(st, Status::Done(_))
+			}
+			// ---- the callback's command reads one by one (yield point cmd.r before each read)
+			"ABeginR" => {
+				n_cur = step["n"].as_u64().unwrap() as usize;
+				let n = n_cur;
+				// the clock's first read is the speed command: the only reader of that type
+				aw.ctl.set_tag("ClockSpeed");
+				aw.start(&["cmd.r"], move |r| {
+					let res = run_callback(r, n, 2);
+					json!({"out": res.out, "m": res.monitor(2)})
+				});
+				audio_running = true;
+				let st = aw.wait();
+				aw.ctl.set_tag("");
+				t.ev(json!({"a": "cbstart"}));
+				matches!(st, Status::Parked(_))
+			}
+			"ARdSpeed" | "ARdA" => {
+				// on to the next read (set_ticking / reset, in the order the code has them)
+				let st = aw.resume();
+				t.ev(json!({"a": "tau"}));
+				matches!(st, Status::Parked(_))
+			}
+			"ARdB" => {
+				// past the last read, up to the publication of the time
+				aw.ctl.set_sites(&["clk.reset", "clk.pub"]);
+				let st = aw.resume();
+				t.ev(json!({"a": "tau"}));
+				matches!(st, Status::Parked(_))
 			}
 			"StopB" | "APubTicksNoop" => {
 				t.ev(json!({"a": "tau"}));
